@@ -662,6 +662,7 @@ fn corpus() -> Vec<Case> {
 // through their C symbols only (needed to define global variables before compiling).
 #[repr(C)]
 pub struct YRX_COMPILER { _p: [u8; 0] }
+#[allow(improper_ctypes)]
 extern "C" {
     fn yrx_compiler_create(flags: u32, compiler: *mut *mut YRX_COMPILER) -> yara_x_capi::YRX_RESULT;
     fn yrx_compiler_destroy(compiler: *mut YRX_COMPILER);
